@@ -1,6 +1,6 @@
 (** C09 property theorems: for every table of call functions [body] (call #i's function performs the
     timer operations [body i]: callLater / cancel / reset / delay / getDelayedCalls, on any calls, itself
-    included), every history [ops] of such operations and advances from the fresh Clock, every fuel.
+    included, and may end by raising an exception), every history [ops] of such operations and advances from the fresh Clock, every fuel.
     The log is kept newest first.  Times are integers (dyadic rationals scaled by 2^k). *)
 From Coq Require Import List Arith ZArith Bool Permutation Sorted.
 From TwLib Require Import TimersCall.
@@ -33,10 +33,11 @@ Theorem never_before_scheduled_time : forall body fuel ops c n others,
 Proof. exact run_never_early. Qed.
 Print Assumptions never_before_scheduled_time.
 
-(** ... and an advance that completes leaves no call pending whose time has been reached: each call
-    runs during the first advance that reaches its currently scheduled time (unless cancelled) *)
+(** ... and an advance that completes (no call function raised: Clock.advance propagates such an exception
+    and leaves the remaining due calls pending for the next advance) leaves no call pending whose time has
+    been reached: each call runs during the first advance that reaches its currently scheduled time *)
 Theorem advance_runs_every_due_call : forall body fuel s a,
-  oof (step body fuel s (Advance a)) = false ->
+  oof (step body fuel s (Advance a)) = false -> advance_aborted (step body fuel s (Advance a)) = false ->
   Forall (fun c => now (step body fuel s (Advance a)) < getTime c) (calls (step body fuel s (Advance a))).
 Proof. exact advance_done. Qed.
 Print Assumptions advance_runs_every_due_call.
@@ -63,3 +64,13 @@ Theorem same_time_creation_order : forall body fuel ops c n others o,
   getTime c = getTime o -> cres c = false -> cres o = false -> (cid c < cid o)%nat.
 Proof. exact run_creation_order. Qed.
 Print Assumptions same_time_creation_order.
+
+(** the same as one statement about the log (newest first): of two run events for the same time whose calls
+    were never rescheduled, the earlier one is the call created first *)
+Theorem same_time_creation_order_pairwise : forall body fuel ops,
+  StronglySorted
+    (fun newer older => getTime older = getTime newer -> cres older = false -> cres newer = false ->
+                        (cid older < cid newer)%nat)
+    (runs (log (run body fuel init ops))).
+Proof. exact reach_run_order. Qed.
+Print Assumptions same_time_creation_order_pairwise.
